@@ -539,6 +539,11 @@ func (s *Service) handleConn(conn net.Conn) {
 			if err := writeBytesWithLength(conn, p); err != nil {
 				return
 			}
+			if resp.Error != "" {
+				// The request was rejected, and the client has been told why.
+				// There is nothing to stream.
+				continue
+			}
 
 			// Now, start streaming the backup. Enable compressed mode
 			// regardless of whether the client requested it, so the client
